@@ -28,6 +28,23 @@ C["C11"]=dict(cat="model_checking",engine="seqx+vsched",
  text="Sequential: every sequence of length <=3 (4 thorough) over 8 keys (two messages, an fnv32a-mod-4096 collider found by search, two levels, a disabled level, out-of-range levels below and above) x 6 timestamp deltas {0, tick-1, tick, tick+1, -1, -(tick+1)} for first, thereafter in 0..3 and tick in {1ns, 10ns, 1s}, on the parent sampler and alternating parent/With-child, with the real sampler driven in lockstep with a reference counter model (no state deduplication; fresh instances every 10^4 sequences); oracle per entry: forwarded iff admitted, hook called exactly once with the applied decision, disabled levels consume nothing, out-of-range levels pass unsampled. Concurrent: every interleaving (sampler atomics are the scheduling points; unbounded for <=4 entries, preemption bound 4 above) of 2-3 threads x 1-2 same-key entries inside an open window (exact admitted count) and straddling the window end (per-entry accounting only).",
  note="Hash = fnv32a mod 4096 per level; timestamps inside the int64 nanosecond range; sequence length and thread counts as stated. "+TB,
  tech="explicit enumeration of all entry histories against a reference model + exhaustive interleaving exploration of the real atomics under a controlled scheduler")
+ENC="Encoder explorer (internal/encx): F1 = every field tree with <=4 (5 thorough) nodes over a reduced leaf set x object/inline/dict/array containers x every marshaler error position x every split into <=2 With segments + call-site fields; F2 = the full leaf alphabet (~110 leaves: boundary numerics of every width, NaN/Inf/-0/subnormals, hostile and invalid-UTF-8 strings/bytes, complex, durations and times under every built-in encoder, pointers, reflected values incl. unencodable ones, Stringers and errors incl. panicking and nil ones, typed slices) in 10 context classes, and every string of <=2 (3 thorough) units over a 16-unit alphabet as value and as key; F3 = the full product of key presence x sub-encoder variants (11200 configurations) x 32 entry variants x line endings, plus all 256 level values. "
+C["C01"]=dict(cat="exploration",engine="seqx",
+ text=ENC+"Oracle: an independent strict RFC 8259 recogniser accepts exactly one object, followed by exactly the configured line ending; no byte below 0x20 inside the object; valid UTF-8; encoding/json.Valid agrees; the call returns normally. Both the Encoder.EncodeEntry path and the Core.With/Write path to a byte sink are driven.",
+ note="Bounded-exhaustive over the stated alphabets (finite trees, boundary value alphabets, built-in/nil/no-op sub-encoders); arbitrary user-written sub-encoders and marshalers are outside the alphabet. Trusted: Go toolchain, encoding/json only as a second validator.",
+ tech="bounded-exhaustive enumeration of inputs and configurations on the real encoder, checked by an independent JSON recogniser")
+C["C02"]=dict(cat="exploration",engine="seqx",
+ text=ENC+"Restricted to configurations whose encoded value the statement defines (built-in sub-encoders, nil level encoder, distinct keys). Oracle: the line is decoded by an order- and duplicate-preserving decoder and compared member by member with a reference tree built independently from the field specs and documentation (metadata with the omission rules, then context, then call-site fields; integers textually, floats by bit pattern after ParseFloat, strings with U+FFFD replacement, base64, complex, error/verbose/causes, reference formatters for every built-in level/time/duration/caller/name encoder); for fault-free trees the nesting is also compared with zapcore.MapObjectEncoder.",
+ note="Value domains are boundary alphabets, not whole types (8-bit levels complete). The reference encoder is written from the documentation and is itself part of the trusted base, cross-checked by the MapObjectEncoder comparison.",
+ tech="bounded-exhaustive enumeration with an independent reference encoding (differential oracle) and a second implementation (MapObjectEncoder)")
+C["C10"]=dict(cat="fault_enumeration",engine="seqx",
+ text="Field faults: every tree of F1 (<=4 nodes, 5 thorough) that contains a failing node - marshaler error before/between/after children at every position, unencodable reflected values as fields and array elements, and the fault leaves (panicking Stringer/Error()/Errors(), nil-pointer Stringer and error, failing json.Marshaler) in 10 context classes - must return normally, stay well-formed (C01 recogniser) and decode to the reference tree that holds every other field unchanged plus the <key>Error member. Sink/core faults: every outcome vector over {ok, write error, short write + error, sync error} for tees and multi-syncers of k<=3 (4 thorough) destinations x levels info/error/fatal(hook) x two entries: every destination still receives every complete entry, every write error is named on the error output once per failing entry, the call returns, the fatal hook runs.",
+ note="Fault kinds and positions are the listed finite alphabets. A nil-pointer Stringer/error is rendered as <nil> under the field's own key (documented in encodeStringer/encodeError) and accepted as its report.",
+ tech="exhaustive fault-position and outcome-vector enumeration on the real code against a reference model")
+C["C16"]=dict(cat="exploration",engine="seqx",
+ text="Console encoder: the 11200-configuration product (key presence x built-in/nil/no-op sub-encoders) x 32+ entry variants x 5 field placements x separators {default,|,space,::,multi-byte} x line endings and duration encoders; plus every field tree with <=3 (4 thorough) nodes and the full leaf alphabet in 10 context classes. Oracle: the line equals, byte for byte, the reference columns (time, level, name, caller, function, message; presence rules of the statement) joined by the separator, then - iff the fields produce any member - the separator and a JSON object that parses strictly and equals the C02 reference tree, then newline+stack when present and enabled, then the line ending.",
+ note="Messages and function names are non-empty in the alphabet (an empty column makes 'joined by the separator' ambiguous). Reference column renderers are written from the documentation of the built-in encoders.",
+ tech="bounded-exhaustive enumeration of configurations and inputs against an independently assembled reference line")
 checks=[]
 for pid in sorted(C):
     c=C[pid]
